@@ -242,7 +242,7 @@ var c19Maps = []mbMapSpec{
 
 func runC19(tier string, _ []string) int {
 	c := vlib.NewCtx("C19", tier, "exploration")
-	c.SetRule("real modbus.Client <-> real modbus.Server.Listen over (a) RTU framing on a packet-preserving in-memory duplex and (b) TCP framing on net.Pipe; 4 register maps with PRNG contents; every client method (ReadCoils, ReadDiscreteInputs, ReadHoldingRegs, ReadInputRegs, WriteSingleCoil, WriteSingleReg) x addresses (map edges, unmapped, 0xFFFF) x counts 1..largest fitting the client's 200-byte frame (success required, values and number of values compared with the server's registers) and beyond up to the protocol maximum on fresh pairs (error or correct values, never wrong ones) x unit ids; write then read back through the client and directly from the register file; a man-in-the-middle alters responses: 1-bit / 2-bit / <=16-bit-burst CRC damage (RTU), truncation at every length, wrong transaction id (TCP) => the call must fail; a withheld reply delivered late (TCP) must not answer the next request; 70000 consecutive TCP transactions (id wrap); conversions: all 2^16 register values, sampled 32-bit patterns incl. NaNs, both word orders, bit-exact in both directions. conversions of 2-6 element slices element by element; one TCP connection stays idle for 30 s (over a hundred rounds of read timeout + back-off in the server) and must then be served as before. distinct = (transport, method, count class, outcome) Finally several masters on one register file: 3-6 client/server pairs (TCP and RTU) share one modbus.Regs; every connection writes coils only it owns (interleaved with the other connections' coils inside the same 16-bit registers) and its own register, reads each back after the acknowledgement and all are compared at rest.")
+	c.SetRule("real modbus.Client <-> real modbus.Server.Listen over (a) RTU framing on a packet-preserving in-memory duplex and (b) TCP framing on net.Pipe; 4 register maps with PRNG contents; every client method (ReadCoils, ReadDiscreteInputs, ReadHoldingRegs, ReadInputRegs, WriteSingleCoil, WriteSingleReg) x addresses (map edges, unmapped, 0xFFFF) x counts 1..largest fitting the client's 200-byte frame (success required, values and number of values compared with the server's registers) and beyond up to the protocol maximum on fresh pairs (error or correct values, never wrong ones) x unit ids; write then read back through the client and directly from the register file; a man-in-the-middle alters responses: 1-bit / 2-bit / <=16-bit-burst CRC damage (RTU), truncation at every length, wrong transaction id (TCP) => the call must fail; a withheld reply delivered late (TCP) must not answer the next request; 70000 consecutive TCP transactions (id wrap); conversions: all 2^16 register values, sampled 32-bit patterns incl. NaNs, both word orders, bit-exact in both directions. conversions of 2-6 element slices element by element; one client/server pair talks RTU over a byte-stream line read through respreader (100 ms / 20 ms, as node/modbus.go): plain traffic, then replies that arrive 0.4 s late (two in a row; one of 205 bytes) followed by 0.8 s of silence - the next request must get its own answer; one TCP connection stays idle for 30 s (over a hundred rounds of read timeout + back-off in the server) and must then be served as before. distinct = (transport, method, count class, outcome) Finally several masters on one register file: 3-6 client/server pairs (TCP and RTU) share one modbus.Regs; every connection writes coils only it owns (interleaved with the other connections' coils inside the same 16-bit registers) and its own register, reads each back after the acknowledgement and all are compared at rest.")
 	c.Assume("the in-memory duplex delivers whole packets (as respreader does on a serial line); reads time out after 150 ms")
 	wd := c.NewWatchdog()
 	nPairs := c.N(24, 400)
@@ -286,6 +286,11 @@ func runC19(tier string, _ []string) int {
 			}
 		}
 		idleRes <- ""
+	}()
+	lineRes := make(chan [2]string, 1)
+	go func() {
+		s, w := c19SerialLine(c)
+		lineRes <- [2]string{s, w}
 	}()
 	vlib.Parallel(nPairs, 8, func(pi int) {
 		r := vlib.NewR(c.Seed, "c19", pi)
@@ -864,6 +869,9 @@ func runC19(tier string, _ []string) int {
 		}
 		c.Count("shared_register_file_runs", 1)
 		c.Distinct(fmt.Sprintf("shared register file, %d connections", nCl))
+	}
+	if res := <-lineRes; res[0] != "" {
+		c.Violate(res[0], res[1], map[string]any{"seed": c.Seed, "stage": "serial line through respreader"})
 	}
 	if res := <-idleRes; res != "" {
 		c.Violate("modbus-e2e:idle-connection-not-served", res, map[string]any{"seed": c.Seed})
